@@ -95,12 +95,20 @@ func (e *boolEval) val(v ssa.Value, fr *boolFrame) (bool, bool) {
 				return a || b, ok1 && ok2
 			}
 		case token.LSS, token.LEQ, token.GTR, token.GEQ:
-			op, l, r := x.Op, symRender(x.X, fr.env, 0), symRender(x.Y, fr.env, 0)
-			// canonical: "<" or "<=" only
-			if op == token.GTR || op == token.GEQ {
-				op, l, r = mirrorOp(op), r, l
+			// canonical: "a<b" only;  a<=b is !(b<a),  a>b is b<a,  a>=b is !(a<b)
+			l, r := symRender(x.X, fr.env, 0), symRender(x.Y, fr.env, 0)
+			switch x.Op {
+			case token.LSS:
+				return e.atom(l + "<" + r)
+			case token.GTR:
+				return e.atom(r + "<" + l)
+			case token.LEQ:
+				b, ok := e.atom(r + "<" + l)
+				return !b, ok
+			default:
+				b, ok := e.atom(l + "<" + r)
+				return !b, ok
 			}
-			return e.atom(l + op.String() + r)
 		}
 	case *ssa.Call:
 		if callee, bindings := localCallee(x); callee != nil && isBoolType(x.Type()) {
